@@ -250,6 +250,12 @@ class ServerWorld:
             self._bg.__enter__()
         self.app = BptkServer("verif_server", self._factory(), adapter, self.token)
         self.app.logger.disabled = True
+        if self.cfg.get("app_context"):
+            # the application is driven from inside an application context that stays pushed (a script, a shell, a test
+            # fixture: `with app.app_context(): ...`): every request is served within it
+            self._app_ctx = self.app.app_context()
+            self._app_ctx.push()
+            self.result.probe("requests_inside_a_pushed_app_context")
         if background:
             # whatever the constructor started is background work
             self._bg.policy.bg = {t.tid for t in self._bg.tasks if t.tid != 0}
@@ -279,6 +285,13 @@ class ServerWorld:
     def crash(self):
         if self.app is not None:
             self.log.add("crash", self.incarnation)
+        ctx = getattr(self, "_app_ctx", None)
+        if ctx is not None:
+            self._app_ctx = None
+            try:
+                ctx.pop()
+            except Exception:
+                pass
         self._bg_end()
         self.app = None
 
